@@ -25,14 +25,15 @@
 (*           including p1's key (swap) or a wrong sort                     *)
 (*   M3      a fixed list of three-pair maps (cycles, chains).             *)
 (* Every expression of depth <= 1 gets all its maps.  Deeper expressions   *)
-(* are thinned deterministically: M1 maps 1 in S1, M2 only for 1 in SE     *)
+(* are thinned deterministically: 1 in SD expressions is used; of its maps *)
+(* M1 1 in S1, M2 only for 1 in SE                                         *)
 (* expressions and there for 1 in S2 first pairs (the fixed quantifier     *)
 (* family DQ: all of M1, M2 for 1 in SQ first pairs), positions rotated by *)
 (* Off (the driver derives Off from the run's seed).                       *)
 (***************************************************************************)
 EXTENDS Subst, FiniteSets, SequencesExt
 CONSTANTS Thorough,   \* BOOLEAN: wider leaf sets and operator sets
-          S1, SE, S2, SQ, \* thinning strides (1 = keep everything)
+          SD, S1, SE, S2, SQ, \* thinning strides (1 = keep everything)
           Off         \* rotation of the thinning
 
 \* ---- leaves ---------------------------------------------------------------------------
@@ -84,32 +85,32 @@ DQ == {Qu(q, "v", t) : q \in Qs, t \in QBodies}
             Qu("forall", "v", Qu("exists", "w", Bin("and", P(V), P(Wv))))}
 Deep == {e \in (D2 \ E01) \cup DQ : ~ZeroDen(e) /\ NF(e)}
 Shallow == E01
-DeepSeq == SetToSeq(Deep)
+DeepAll == SetToSeq(Deep)
+\* the deep expressions of this run: the quantifier family and 1 in SD of the others
+DeepSeq == SelectSeq([i \in DOMAIN DeepAll |-> IF (i + Off) % SD = 0 \/ DeepAll[i] \in DQ THEN DeepAll[i] ELSE A], LAMBDA e : e # A)
 
-\* ---- value pools ----------------------------------------------------------------------
-Vals(s) ==
-   CASE s = "bool" -> {A, B, Not(A), P(V), Bin("and", A, B)} \cup (IF Thorough THEN {TrueC, C, Not(P(LOC))} ELSE {})
-     [] s = "int"  -> {One, X, Bin("plus", X, One)} \cup (IF Thorough THEN {Half, Y, Kp, Two} ELSE {})
-     [] s = "real" -> {Half, X, Rr}
-     [] s = "T"    -> {LOC, V, O1} \cup (IF Thorough THEN {O2, Wv, Up} ELSE {})
-     [] s = "T2"   -> {O2} \cup (IF Thorough THEN {Wv, LOC2} ELSE {})
-Bad(s) ==
-   CASE s = "bool" -> {One} \cup (IF Thorough THEN {LOC} ELSE {})
-     [] s \in {"int", "real"} -> {A} \cup (IF Thorough THEN {LOC} ELSE {})
-     [] s = "T"    -> {A} \cup (IF Thorough THEN {One} ELSE {})
-     [] s = "T2"   -> {LOC} \cup (IF Thorough THEN {A, One} ELSE {})
-\* small pool for the second pair
-Vals2(s) ==
-   CASE s = "bool" -> {B, Not(A)}
-     [] s = "int"  -> {One, X}
-     [] s = "real" -> {Half}
-     [] s = "T"    -> {LOC, O1}
-     [] s = "T2"   -> {O2}
+\* ---- value pools (constants: TLC evaluates them once) ------------------------------------
+ValsB  == {A, B, Not(A), P(V), Bin("and", A, B)} \cup (IF Thorough THEN {TrueC, C, Not(P(LOC))} ELSE {})
+ValsI  == {One, X, Bin("plus", X, One)} \cup (IF Thorough THEN {Half, Y, Kp, Two} ELSE {})
+ValsR  == {Half, X, Rr}
+ValsT  == {LOC, V, O1} \cup (IF Thorough THEN {O2, Wv, Up} ELSE {})
+ValsT2 == {O2} \cup (IF Thorough THEN {Wv, LOC2} ELSE {})
+Vals(s) == CASE s = "bool" -> ValsB [] s = "int" -> ValsI [] s = "real" -> ValsR [] s = "T" -> ValsT [] s = "T2" -> ValsT2
+\* values of a wrong sort
+BadB  == {One} \cup (IF Thorough THEN {LOC} ELSE {})
+BadN  == {A} \cup (IF Thorough THEN {LOC} ELSE {})
+BadT  == {A} \cup (IF Thorough THEN {One} ELSE {})
+BadT2 == {LOC} \cup (IF Thorough THEN {A, One} ELSE {})
+Bad(s) == CASE s = "bool" -> BadB [] s \in {"int", "real"} -> BadN [] s = "T" -> BadT [] s = "T2" -> BadT2
+\* small pools for the second pair
+V2B == {B, Not(A)}   V2I == {One, X}   V2R == {Half}   V2T == {LOC, O1}   V2T2 == {O2}
+Vals2(s) == CASE s = "bool" -> V2B [] s = "int" -> V2I [] s = "real" -> V2R [] s = "T" -> V2T [] s = "T2" -> V2T2
 Foreign == {C, Y} \cup (IF Thorough THEN {LOC2, Kp} ELSE {})
 
 Pair(k, val) == [k |-> k, v |-> val]
 Good1(e) == UNION {{Pair(k, val) : val \in Vals(Sort(k)) \ {k}} : k \in Subterms(e)}
-Bad1(e)  == UNION {{Pair(k, val) : val \in Bad(Sort(k))} : k \in Subterms(e) \cup Foreign}
+BadFor   == UNION {{Pair(k, val) : val \in Bad(Sort(k))} : k \in Foreign}
+Bad1(e)  == UNION {{Pair(k, val) : val \in Bad(Sort(k))} : k \in Subterms(e)} \cup BadFor
 For1     == UNION {{Pair(k, val) : val \in Vals2(Sort(k))} : k \in Foreign}
 M1(e) == {<<p>> : p \in Good1(e) \cup Bad1(e) \cup For1}
 \* second keys for a first pair p1 (sub = Subterms(e)); a key that only exists after p1 has been
